@@ -250,6 +250,10 @@ class Service:
         logger.info(f"Search for service {self.short_sid} successfully.")
 
     def close_service(self):
+        if self.get_current_service_state() == SERVICE_STATE.NOT_EXISTS:
+            # nothing was accepted for this service, so there is nothing to store: a state file written here would
+            # mark whatever an interrupted configuration upload left in the folder as a complete service
+            return
         self._store_service_meta()
 
     async def wait_closed(self):
